@@ -5,6 +5,7 @@ SPEC = {
     "allowed_axioms": [],
     "extract": {
         "LibTw2.Model.Snap": ['add_item', 'raw_items', 'raw_item', 'crc', 'raw_write_to_ints', 'raw_write_bytes', 'raw_read_from_ints', 'raw_read_bytes', 'create_raw', 'raw_read_with_delta', 'k09', 'delta_write_to_ints', 'delta_write_bytes', 'delta_read_from_ints', 'delta_read_bytes', 'builder_new', 'builder_add', 'builder_finish', 'snap_recycle', 'snap_items', 'snap_item', 'snap_read_from_ints', 'snap_read_bytes', 'snap_read_with_delta', 'raw_empty', 'snap_empty', 'delta_empty', 'uuid_of_bytes', 'uuid_to_bytes', 'key_to_raw_type_id', 'key_to_id'],
+        "LibTw2.Model.SnapRef": ['ref_builder_ints', 'ref_create_delta', 'ref_sizes', 'ref_sizes_ok'],
     },
     "components": [{"bin": "snap", "driver": "drv_snap", "args": ["c09"], "timeout": {"quick": 1200, "thorough": 6000}}],
     "release": False,
